@@ -19,7 +19,7 @@ ASSUMPTIONS = ['shift invariance is judged on matrices whose entries are all sto
                'no stored logit is exactly 0.0', 'tolerance 1e-9 (float64)']
 N = {'quick': 3000, 'thorough': 100000}
 CLASSES = ['dense', 'dense_peaky', 'sparse_floor', 'onehot', 'transformer', 'bag', 'bag_lm', 'bag_extreme', 'threshold', 'alto_wc', 'tiny_logits', 'alto_word_onehot', 'parser_update', 'long_line', 'window_equals_text', 'merged_confidences', 'alto_uncertain_word']
-REQUIRED = ['factory_built_page_decoder_thresholds', 'second_exports_after_new_logits', 'pages_with_two_character_tables', 'uncertain_words_checked', 'merged_line_confidences_checked', 'page_decoder_thresholds_checked', 'window_equals_text_lines', 'lines_over_1000_frames', 'word_onehot_lines', 'parser_updates', 'tiny_logit_lines', 'repeated_calls_checked', 'bag_history_steps', 'repo_tests_under_contracts', 'line_conf_checked', 'shift_checked', 'onehot_checked', 'letter_conf_checked', 'page_conf_checked', 'bag_checked', 'monotone_checked', 'wc_checked',
+REQUIRED = ['bags_with_an_lm_score_of_exactly_zero', 'lines_without_frames_checked', 'factory_built_page_decoder_thresholds', 'second_exports_after_new_logits', 'pages_with_two_character_tables', 'uncertain_words_checked', 'merged_line_confidences_checked', 'page_decoder_thresholds_checked', 'window_equals_text_lines', 'lines_over_1000_frames', 'word_onehot_lines', 'parser_updates', 'tiny_logit_lines', 'repeated_calls_checked', 'bag_history_steps', 'repo_tests_under_contracts', 'line_conf_checked', 'shift_checked', 'onehot_checked', 'letter_conf_checked', 'page_conf_checked', 'bag_checked', 'monotone_checked', 'wc_checked',
             'contract:get_line_confidence in [0,1], one per label', 'contract:posteriors <= 0 and sum to 1', 'contract:compute_line_confidence in [0,1]']
 TOL = 1e-9
 
@@ -40,7 +40,11 @@ def gen(rng, i, ctx):
         lm = None if cls == 'bag' else [float(-rng.random() * 20) for _ in range(n)]
         if cls == 'bag_lm' and rng.random() < 0.3 and n >= 2:
             lm[int(rng.integers(0, n))] = None            # a bag in which some hypotheses carry no LM score (hypotheses added by hand to a decoded bag)
-        return {'cls': cls, 'vis': vis, 'lm': lm, 'weight': float(rng.choice([0, 0.5, 1, 3]))}
+        case = {'cls': cls, 'vis': vis, 'lm': lm, 'weight': float(rng.choice([0, 0.5, 1, 3]))}
+        if lm is not None and all(x is not None for x in lm) and rng.random() < 0.35:
+            lm[int(rng.integers(0, n))] = 0.0             # (round 7) an LM score of exactly 0 (the empty transcript: no character was scored yet)
+            case['zero_lm_score'] = True
+        return case
     if cls == 'alto_word_onehot':
         # two words, the second also occurring inside (or equal to) the first; the frames of ONE of them are one-hot, the other's are noisy
         w2 = ''.join('abcd'[int(k)] for k in rng.integers(0, 4, size=int(rng.integers(1, 4))))
@@ -108,6 +112,8 @@ def check_bag(case, mon, ctx):
     if case['lm'] is not None and lm_eff is None:
         mon.count('bags_with_some_lm_scores_missing')
     mon.count('bag_checked')
+    if case.get('zero_lm_score'):
+        mon.count('bags_with_an_lm_score_of_exactly_zero')
     if len(case['vis']) > 1:
         mon.mark_nontrivial()
     p = np.asarray(b.posteriors(), dtype=np.float64)
@@ -220,6 +226,20 @@ def check(case, mon, ctx):
             pass
     v = ctx.pp.PageParser.compute_line_confidence(line)
     mon.count('page_conf_checked')
+    # a line without any frame (an empty crop was recognised): its confidence is still a number in [0, 1]
+    try:
+        from scipy import sparse as _sp
+        empty_line = ctx.layout.TextLine(id='no-frames', logits=_sp.csc_matrix(np.zeros((0, C))), characters=[chr(97 + k_) for k_ in range(C - 1)] + ['_'], transcription='')
+        v0 = ctx.pp.PageParser.compute_line_confidence(empty_line)
+        mon.count('lines_without_frames_checked')
+        if not in_unit(v0):
+            mon.violation('page-line-confidence-in-unit-interval', {'value': v0, 'note': 'line whose logit matrix has no rows'})
+    except Exception as e:
+        from vf import core as _core
+        if _core.raised_where(e) == 'code-under-test-raises':
+            mon.violation('page-line-confidence-in-unit-interval', {'exception': repr(e)[:200], 'note': 'line whose logit matrix has no rows'})
+        else:
+            raise
     mon.observe('confidences', [None if c is None else np.round(np.asarray(c, dtype=np.float64), 12).tolist(), round(float(v), 12)])
     if not in_unit(v):
         mon.violation('page-line-confidence-in-unit-interval', {'value': v})
